@@ -103,7 +103,9 @@ template <class G> void c08(Reporter &R, const std::string &cls, const GraphSpec
         if (s.n > 0) {
             for (int round = 0; round < 3; ++round) {
                 VertexIndex i = r.u(s.n), j = r.u(s.n);
-                if (round == 0) i = 0;
+                    if (round == 0) i = 0;        // below every vertex that had an edge so far
+                    if (round == 1) i = s.n - 1;  // above every vertex that had an edge so far
+                    if (r.chance(1, 2)) std::swap(i, j); // named in either orientation
                 Edge k = canon(s.directed, i, j);
                 if (x.e.count(k)) {
                     if constexpr (IsMulti<G>::value) g.setEdgeMultiplicity(i, j, 0);
